@@ -247,7 +247,7 @@ func (t *htmlTemplate) processTagStart(node *Node, tokenBuf *strings.Builder,
 					return data, err
 				}
 				result = html.EscapeString(result)
-				result = fmt.Sprintf(" %v=%q", cmd, result)
+				result = fmt.Sprintf(" %v=\"%v\"", cmd, result) // 已经转义过 不能再用 %q 否则反斜线/换行会被二次转义
 				writeToBuf(opt, tagBuf, result)
 			}
 		} else { // 普通属性
